@@ -46,6 +46,12 @@ CHECKS = {
  "C12": ("stateful model-based PBT: operation sequences on Interner / PortableRegistryBuilder vs a duplicate-free Vec (proptest)",
          "Exploration over op sequences with forced duplicates, self references through next_type_id and out-of-range lookups; every return value compared after every step.",
          "Trusted: the list model; proptest.", "2/C12"),
+ "C13": ("generated-program PBT: one generic definition per program with premise-respecting instantiations; rustc as the oracle (twin without the derive must compile), run-time check of the parameter listing (proptest, AST shrinking)",
+         "Exploration: ~1500 (quick) / 40000 (thorough) generated generic definitions covering parameter roles, lifetimes (incl. bounded), const parameters, defaults, inline/where bounds, skip_type_params and explicit bounds.",
+         "rustc's trait solver is trusted; ?Sized parameters and mutually recursive generics without bounds(..) are outside the stated grammar.", "2/C13"),
+ "C20": ("generated negative programs with positive twins, compiled one by one with rustc --emit=metadata; diagnostics classified by error code (proptest over the negative grammar)",
+         "Exploration of the negative grammar (13 defect families x positions x forms x surrounding setters, a few hundred distinct programs): each negative must be rejected for the defect (twin compiles, no typo-class error), builder negatives by a type error, derive negatives additionally leaving no impl.",
+         "Error wording is not matched; rustc error codes are trusted.", "2/C20"),
  "C14": ("fuzz-style PBT with fault injection: arbitrary and systematically corrupted SCALE bytes / JSON under catch_unwind and a counting allocator (proptest); libFuzzer targets scale_decode, json_decode in thorough",
          "Exploration + per-case fault enumeration (every truncation, every bit flip and every compact replacement of small valid encodings). Checks no panic/abort, linear memory envelope, canonical re-encode, total resolve.",
          "Assumes the envelope 128 KiB + 256 x input length expresses 'proportional'; worker death attributed by a supervisor process.", "2/C14"),
